@@ -318,15 +318,21 @@ impl FormatSpec {
         sep: char,
         disp_digit_cnt: i32,
     ) -> String {
-        // Don't add separators to the floating decimal point of numbers
-        let mut parts = magnitude_str.splitn(2, '.');
-        let magnitude_int_str = parts.next().unwrap().to_string();
-        let dec_digit_cnt = magnitude_str.len() as i32 - magnitude_int_str.len() as i32;
-        let int_digit_cnt = disp_digit_cnt - dec_digit_cnt;
-        let mut result = FormatSpec::separate_integer(magnitude_int_str, inter, sep, int_digit_cnt);
-        if let Some(part) = parts.next() {
-            result.push_str(&format!(".{part}"))
+        // Only the leading run of digits is grouped: a fraction, an exponent or a '%' sign is copied
+        // unchanged, and a text without digits (inf, nan) is not grouped at all.
+        let int_len = magnitude_str
+            .bytes()
+            .take_while(|b| b.is_ascii_digit())
+            .count();
+        if int_len == 0 {
+            return magnitude_str;
         }
+        let (magnitude_int_str, remainder) = magnitude_str.split_at(int_len);
+        let dec_digit_cnt = remainder.len() as i32;
+        let int_digit_cnt = disp_digit_cnt - dec_digit_cnt;
+        let mut result =
+            FormatSpec::separate_integer(magnitude_int_str.to_string(), inter, sep, int_digit_cnt);
+        result.push_str(remainder);
         result
     }
 
